@@ -95,18 +95,37 @@ Definition path_safe_char (c : N) : bool :=
 Definition hexdigit (n : N) : N := if n <? 10 then 48 + n else 55 + n.
 Definition pct_byte (b : N) : str := [PCT; hexdigit (b / 16); hexdigit (b mod 16)].
 
-(* _quote_path(value) = URL.build(path=value, encoded=False).raw_path; None = UnicodeEncodeError *)
-Fixpoint quote_path (v : str) : option str :=
+(* yarl: a ':' in a relative path that could be read as a scheme separator (position > 0, only
+   scheme characters before it) is re-encoded as %3A *)
+Definition scheme_char (c : N) : bool :=
+  ((48 <=? c) && (c <=? 57)) || ((65 <=? c) && (c <=? 90)) || ((97 <=? c) && (c <=? 122))
+  || memN c [43; 45; 46].
+
+Fixpoint encode_colon_aux (seen : bool) (s : str) : str :=
+  match s with
+  | [] => []
+  | c :: s' =>
+    if c =? 58 then (if seen then pct_byte 58 ++ s' else s)
+    else if scheme_char c then c :: encode_colon_aux true s'
+    else s
+  end.
+Definition encode_colon (s : str) : str := encode_colon_aux false s.
+
+Fixpoint quote_chars (v : str) : option str :=
   match v with
   | [] => Some []
   | c :: v' =>
     match (if (c <? 128) && path_safe_char c then Some [c]
            else match utf8_char c with Some bs => Some (flat_map pct_byte bs) | None => None end),
-          quote_path v' with
+          quote_chars v' with
     | Some a, Some b => Some (a ++ b)
     | _, _ => None
     end
   end.
+
+(* _quote_path(value) = URL.build(path=value, encoded=False).raw_path; None = UnicodeEncodeError *)
+Definition quote_path (v : str) : option str :=
+  match quote_chars v with Some q => Some (encode_colon q) | None => None end.
 
 Definition requote_path (v : str) : option str :=
   match quote_path v with
